@@ -335,3 +335,266 @@ def apply(P, known):
         fb.inlined_everywhere = (not other) and not fb.pub
     P._cg = None
     return done
+
+
+# ------------------------------------------------------------------------------------------------------------------------------
+# closure view: closures placed where they run
+
+def _taint_raw(raw, seeds):
+    t = set(seeds)
+    changed = True
+    while changed:
+        changed = False
+        for blk in raw['blocks']:
+            for st in blk['stmts']:
+                if st.get('k') != 'assign' or st['dst']['p']:
+                    continue
+                rv = st['rv']
+                src = rv.get('o') if rv['k'] in ('use', 'cast') else (rv.get('pl') if rv['k'] == 'ref' else None)
+                if isinstance(src, dict) and 'l' in src and src['l'] in t and (not src['p']) and st['dst']['l'] not in t:
+                    t.add(st['dst']['l']); changed = True
+    return t
+
+
+COMBINATORS = {
+    # name: (receiver kind, {variant: action})   action: ('const', v) | ('default',) | ('recv',) | ('payload',) | ('agg', Adt, Var, src) | ('run', how-result-is-used)
+    'Option::<T>::is_some_and': ('Option', {'None': ('const', False), 'Some': ('run', 'ret')}),
+    'Option::<T>::is_none_or': ('Option', {'None': ('const', True), 'Some': ('run', 'ret')}),
+    'Option::<T>::map_or': ('Option', {'None': ('default',), 'Some': ('run', 'ret')}),
+    'Option::<T>::map': ('Option', {'None': ('agg', 'Option', 'None', None), 'Some': ('run', ('agg', 'Option', 'Some'))}),
+    'Option::<T>::and_then': ('Option', {'None': ('agg', 'Option', 'None', None), 'Some': ('run', 'ret')}),
+    'Option::<T>::filter': ('Option', {'None': ('agg', 'Option', 'None', None), 'Some': ('run', 'filter')}),
+    'Option::<T>::unwrap_or_else': ('Option', {'Some': ('payload',), 'None': ('run0', 'ret')}),
+    'Option::<T>::ok_or_else': ('Option', {'Some': ('agg', 'Result', 'Ok', 'payload'), 'None': ('run0', ('agg', 'Result', 'Err'))}),
+    'Option::<T>::or_else': ('Option', {'Some': ('recv',), 'None': ('run0', 'ret')}),
+    'Option::<T>::inspect': ('Option', {'None': ('recv',), 'Some': ('run', 'recv')}),
+    'Result::<T, E>::is_ok_and': ('Result', {'Err': ('const', False), 'Ok': ('run', 'ret')}),
+    'Result::<T, E>::is_err_and': ('Result', {'Ok': ('const', False), 'Err': ('run', 'ret')}),
+    'Result::<T, E>::inspect_err': ('Result', {'Ok': ('recv',), 'Err': ('run', 'recv')}),
+    'Result::<T, E>::map_err': ('Result', {'Ok': ('recv',), 'Err': ('run', ('agg', 'Result', 'Err'))}),
+    'Result::<T, E>::map': ('Result', {'Err': ('recv',), 'Ok': ('run', ('agg', 'Result', 'Ok'))}),
+    'Result::<T, E>::unwrap_or_else': ('Result', {'Ok': ('payload',), 'Err': ('run', 'ret')}),
+    '<impl bool>::then': ('bool', {'false': ('agg', 'Option', 'None', None), 'true': ('run0', ('agg', 'Option', 'Some'))}),
+}
+_VARIDX = {'Option': {'None': '0', 'Some': '1'}, 'Result': {'Ok': '0', 'Err': '1'}, 'bool': {'false': '0', 'true': '1'}}
+_PAYLOAD = {'Some': ['as Some', '.Option.0'], 'Ok': ['as Ok', '.Result.0'], 'Err': ['as Err', '.Result.0']}
+
+
+def _combinator(fnp, call, tl):
+    for name, spec in COMBINATORS.items():
+        if fnp.endswith(name):
+            args = call['args']
+            if not args or not isinstance(args[0], dict) or 'l' not in args[0]:
+                return None
+            ci = [i for i, a in enumerate(args) if isinstance(a, dict) and 'l' in a and a['l'] in tl and not a['p']]
+            if len(ci) != 1 or ci[0] == 0:
+                return None
+            return (name, spec, ci[0])
+    return None
+
+
+def _place_combinator(new, use, call, comb, cal, crow, L, B, cl, bind, span, fid):
+    """exact control flow of a std Option / Result / bool combinator with the closure's blocks in the arm that runs it"""
+    name, (kind, arms), cidx = comb
+    ub = new['blocks'][use]
+    recv = call['args'][0]
+    dst = call['dst']
+    cont = call.get('t')
+    nblocks = []
+    base = B + len(cal['blocks'])
+    extra_locals = []
+
+    def newlocal(ty):
+        extra_locals.append({'ty': ty})
+        return L + len(cal['locals']) + len(extra_locals) - 1
+
+    def blk(stmts, term):
+        b_ = {'i': base + len(nblocks), 'cleanup': ub['cleanup'], 'stmts': stmts, 'term': copy.deepcopy(term), 'inl_site': use}
+        nblocks.append(b_)
+        return b_['i']
+    done_t = {'k': 'goto', 't': cont} if cont is not None else {'k': 'unreachable'}
+
+    def assign(d, rv):
+        return {'k': 'assign', 'dst': copy.deepcopy(d), 'rv': rv, 's': span, 'inl': 'comb'}
+
+    def value_rv(action, var):
+        a = action[0]
+        if a == 'const':
+            return {'k': 'use', 'o': {'c': 'bool', 'i': '1' if action[1] else '0', 'v': 'true' if action[1] else 'false'}}
+        if a == 'default':
+            return {'k': 'use', 'o': copy.deepcopy(call['args'][1])}
+        if a == 'recv':
+            return {'k': 'use', 'o': {'l': recv['l'], 'p': list(recv['p'])}}
+        if a == 'payload':
+            return {'k': 'use', 'o': {'l': recv['l'], 'p': list(recv['p']) + _PAYLOAD[var]}}
+        if a == 'agg':
+            ops = []
+            if action[3] == 'payload':
+                ops = [{'l': recv['l'], 'p': list(recv['p']) + _PAYLOAD[var]}]
+            return {'k': 'agg', 'ak': 'adt', 'adt': action[1], 'var': action[2], 'fields': ['0'] if ops else [], 'ops': ops}
+        return None
+    targets = {}
+    ret_local = {'l': L, 'p': [], 'mv': True}
+    # the arm(s) that run the closure
+    run_vars = [v for v, act in arms.items() if act[0] in ('run', 'run0')]
+    for v, act in arms.items():
+        if act[0] in ('run', 'run0'):
+            stmts = [copy.deepcopy(bind)]
+            if act[0] == 'run' and crow['argc'] >= 2 and v in _PAYLOAD:
+                pay = {'l': recv['l'], 'p': list(recv['p']) + _PAYLOAD[v]}
+                # by-reference combinators (filter, inspect, inspect_err) hand a reference
+                byref = name.endswith(('filter', 'inspect', 'inspect_err'))
+                stmts.append(assign({'l': L + 2, 'p': []}, {'k': 'ref', 'mut': False, 'pl': pay} if byref else {'k': 'use', 'o': pay}))
+            targets[v] = blk(stmts, {'k': 'goto', 't': B})
+        else:
+            targets[v] = blk([assign(dst, value_rv(act, v))], done_t)
+    # after the closure returned
+    act = arms[run_vars[0]]
+    how = act[1]
+    if how == 'ret':
+        after = blk([assign(dst, {'k': 'use', 'o': ret_local})], done_t)
+    elif how == 'recv':
+        after = blk([assign(dst, {'k': 'use', 'o': {'l': recv['l'], 'p': list(recv['p'])}})], done_t)
+    elif how == 'filter':
+        keep = blk([assign(dst, {'k': 'use', 'o': {'l': recv['l'], 'p': list(recv['p'])}})], done_t)
+        drop = blk([assign(dst, {'k': 'agg', 'ak': 'adt', 'adt': 'Option', 'var': 'None', 'fields': [], 'ops': []})], done_t)
+        after = blk([], {'k': 'switch', 'd': {'l': L, 'p': []}, 'ty': 'bool', 'ts': [['0', drop]], 'else': keep, 's': span})
+    else:
+        after = blk([assign(dst, {'k': 'agg', 'ak': 'adt', 'adt': how[1], 'var': how[2], 'fields': ['0'], 'ops': [ret_local]})], done_t)
+    for cb in cal['blocks']:
+        t = cb['term']
+        if t['k'] == 'return':
+            cb['term'] = {'k': 'goto', 't': after}
+        elif t['k'] == 'resume' and isinstance(call.get('u'), int):
+            cb['term'] = {'k': 'goto', 't': call['u']}
+    # dispatch on the receiver
+    vi = _VARIDX[kind]
+    if kind == 'bool':
+        ub['term'] = {'k': 'switch', 'd': {'l': recv['l'], 'p': list(recv['p'])}, 'ty': 'bool', 'ts': [['0', targets['false']]], 'else': targets['true'], 's': span, 'inl_call': fid}
+    else:
+        d = newlocal('isize')
+        ub['stmts'].append(assign({'l': d, 'p': []}, {'k': 'discr', 'pl': {'l': recv['l'], 'p': list(recv['p'])}}))
+        names = list(arms.keys())
+        ub['term'] = {'k': 'switch', 'd': {'l': d, 'p': [], 'mv': True}, 'ty': 'isize', 'ts': [[vi[names[0]], targets[names[0]]]], 'else': targets[names[1]], 's': span, 'inl_call': fid}
+    new['locals'] = new['locals'] + cal['locals'] + extra_locals
+    new['blocks'] = new['blocks'] + cal['blocks'] + nblocks
+
+
+def flatten_closures(P, raw, depth=3, done=None):
+    """a copy of raw body in which every closure created in it is placed at the call that receives it:
+       * a direct call of the closure value (`Fn::call(&c, (a, b))`) is replaced by the closure's blocks (arguments assigned, result assigned);
+       * for a closure handed to an adaptor (`iter.filter_map(c)`, `opt.is_some_and(c)`, `res.inspect_err(c)`, `v.sort_by(c)`) the closure's blocks
+         are put in front of that call as a loop that runs zero or more times with unknown arguments (its result is dropped).
+    The closure environment parameter is bound to the closure value, so captured variables resolve to the caller's places."""
+    if depth == 0:
+        return raw
+    new = copy.deepcopy(raw)
+    guard = 0
+    handled = set()
+    while guard < 40:
+        guard += 1
+        target = None
+        for blk in new['blocks']:
+            for si, st in enumerate(blk['stmts']):
+                if st.get('k') == 'assign' and st['rv']['k'] == 'agg' and st['rv'].get('ak') == 'closure' and not st['dst']['p']:
+                    key = (blk['i'], si)
+                    fid = st['rv'].get('fn')
+                    if key in handled or fid not in P.bodies or fid == raw['id']:
+                        continue
+                    target = (blk['i'], si, st['dst']['l'], fid)
+                    break
+            if target:
+                break
+        if not target:
+            break
+        handled.add((target[0], target[1]))
+        bi0, si0, cl, fid = target
+        tl = _taint_raw(new, {cl})
+        use = None
+        for blk in new['blocks']:
+            t = blk['term']
+            if t['k'] == 'call' and any(isinstance(a, dict) and 'l' in a and a['l'] in tl and not a['p'] for a in t['args']):
+                use = blk['i']
+                break
+        if use is None:
+            continue
+        crow = flatten_closures(P, P.bodies[fid].raw, depth - 1)
+        call = new['blocks'][use]['term']
+        fnp = (call['f'].get('fn') or '') if isinstance(call['f'], dict) else ''
+        direct = bool(re.search(r'ops::Fn(Mut|Once)?::call(_mut|_once)?$', fnp)) and isinstance(call['args'][0], dict) and call['args'][0].get('l') in tl
+        L = len(new['locals'])
+        B = len(new['blocks'])
+        cal = copy.deepcopy({'locals': crow['locals'], 'blocks': crow['blocks'], 'debug': crow.get('debug', [])})
+        for cb in cal['blocks']:
+            _shift(cb['stmts'], L, B)
+            _shift(cb['term'], L, B)
+            _shift_term_targets(cb['term'], B)
+            cb['i'] += B
+            cb.setdefault('inl_site', use)
+        for d in cal['debug']:
+            _shift(d['pl'], L, B)
+        env_ty = crow['locals'][1]['ty'] if len(crow['locals']) > 1 else ''
+        span = call.get('s')
+        ub = new['blocks'][use]
+        bind = {'k': 'assign', 'dst': {'l': L + 1, 'p': []}, 'rv': ({'k': 'ref', 'mut': False, 'pl': {'l': cl, 'p': []}} if env_ty.startswith('&') else {'k': 'use', 'o': {'l': cl, 'p': []}}), 's': span, 'inl': 'env'}
+        comb = _combinator(fnp, call, tl) if not direct else None
+        if comb is not None:
+            _place_combinator(new, use, call, comb, cal, crow, L, B, cl, bind, span, fid)
+            new['debug'] = list(new.get('debug', [])) + cal['debug']
+            continue
+        if direct:
+            ub['stmts'].append(bind)
+            # arguments: the tuple passed as second argument
+            if len(call['args']) > 1 and isinstance(call['args'][1], dict) and 'l' in call['args'][1]:
+                for i in range(crow['argc'] - 1):
+                    ub['stmts'].append({'k': 'assign', 'dst': {'l': L + 2 + i, 'p': []}, 'rv': {'k': 'use', 'o': {'l': call['args'][1]['l'], 'p': list(call['args'][1]['p']) + ['.%d' % i]}}, 's': span, 'inl': 'arg'})
+            ub['term'] = {'k': 'goto', 't': B, 'inl_call': fid}
+            for cb in cal['blocks']:
+                t = cb['term']
+                if t['k'] == 'return':
+                    cb['stmts'].append({'k': 'assign', 'dst': copy.deepcopy(call['dst']), 'rv': {'k': 'use', 'o': {'l': L, 'p': [], 'mv': True}}, 's': t.get('s') or span, 'inl': 'ret'})
+                    cb['term'] = {'k': 'goto', 't': call['t']} if call.get('t') is not None else {'k': 'unreachable'}
+                elif t['k'] == 'resume' and isinstance(call.get('u'), int):
+                    cb['term'] = {'k': 'goto', 't': call['u']}
+            new['locals'] = new['locals'] + cal['locals']
+            new['blocks'] = new['blocks'] + cal['blocks']
+        else:
+            nd = L + len(cal['locals'])          # fresh undetermined bool
+            LB = B + len(cal['blocks'])          # loop head
+            KB = LB + 1                          # the original call
+            ub['stmts'].append(bind)
+            ub['term'] = {'k': 'goto', 't': LB, 'inl_call': fid}
+            for cb in cal['blocks']:
+                t = cb['term']
+                if t['k'] == 'return':
+                    cb['term'] = {'k': 'goto', 't': LB}
+                elif t['k'] == 'resume' and isinstance(call.get('u'), int):
+                    cb['term'] = {'k': 'goto', 't': call['u']}
+            head = {'i': LB, 'cleanup': ub['cleanup'], 'nd_loop': True, 'stmts': [], 'term': {'k': 'switch', 'd': {'l': nd, 'p': []}, 'ty': 'bool', 'ts': [['0', KB]], 'else': B, 's': span}, 'inl_site': use}
+            kblk = {'i': KB, 'cleanup': ub['cleanup'], 'stmts': [], 'term': call, 'inl_site': use}
+            new['locals'] = new['locals'] + cal['locals'] + [{'ty': 'bool'}]
+            new['blocks'] = new['blocks'] + cal['blocks'] + [head, kblk]
+        new['debug'] = list(new.get('debug', [])) + cal['debug']
+    return new
+
+
+def apply_flat(P):
+    """replace every non-closure body by its closure view and drop the closure bodies (the `second opinion` run of a check)"""
+    from ir import Body
+    flat = {}
+    for b in list(P.bodies.values()):
+        if b.kind == 'Closure':
+            continue
+        raw = flatten_closures(P, b.raw)
+        if len(raw['blocks']) != len(b.raw['blocks']):
+            nb = Body(raw, b.crate)
+            nb.short = b.short
+            nb.inlined_ids = list(getattr(b, 'inlined_ids', [])) + ['<closures>']
+            nb.program = P
+            flat[b.id] = nb
+    for bid, nb in flat.items():
+        old = P.bodies[bid]
+        P.bodies[bid] = nb
+        P.by_short[nb.short] = [nb if x.id == bid else x for x in P.by_short[nb.short]]
+    P._cg = None
+    return len(flat)
